@@ -25,7 +25,7 @@ is_assignable against every bound it was given):
   order                 : the verdict (accepted / diagnosed) is the same in every permutation of the bounds; end to end: the
                           same in every order of the (parameter, argument) pairs
 A failing input is classified by the exception classes the Lean driver computes from the definitions the `_partial` theorems
-exclude (`D15_twoUppers`, `D15_anyUpper`, `D15_oneOfUpper`, `D15_nonTransitive`); a class only explains failures of the
+exclude (`D15_twoUppers`, `D15_oneOfUpper`, `D15_nonTransitive`; `anyUpper` was repaired in /repo); a class only explains failures of the
 kinds its theorem speaks about.
 """
 import itertools, json, os
@@ -249,9 +249,9 @@ def parse_report(line):
 
 ADMISSIBLE = {
     "lower": ["nonTransitive"],
-    "upper": ["twoUppers", "anyUpper", "oneOfUpper", "nonTransitive"],
+    "upper": ["twoUppers", "oneOfUpper", "nonTransitive"],
     "oneof": [],
-    "order": ["twoUppers", "anyUpper", "nonTransitive"],
+    "order": ["twoUppers", "nonTransitive"],
     "unsat": [],
 }
 
